@@ -15,7 +15,13 @@ import (
 // function of VERIF_SEED.
 type Rand struct{ s uint64 }
 
-func NewRand(seed uint64) *Rand { return &Rand{s: seed*0x9E3779B97F4A7C15 + 0x1234567} }
+func NewRand(seed uint64) *Rand {
+	// scramble the seed first so that consecutive seeds give unrelated streams
+	z := seed*0xD1342543DE82EF95 + 0x2545F4914F6CDD1D
+	z = (z ^ (z >> 32)) * 0xBF58476D1CE4E5B9
+	z = (z ^ (z >> 29)) * 0x94D049BB133111EB
+	return &Rand{s: z ^ (z >> 32)}
+}
 
 func (r *Rand) Uint64() uint64 {
 	r.s += 0x9E3779B97F4A7C15
